@@ -209,11 +209,9 @@ Definition core_step (fx : bool) (kk : core) (c : cmd) : core :=
   | _ => kk
   end.
 
-(* ---------- Gridn's loop:  for i := 0.0; i <= 1000; i += unit ---------- *)
-Definition grid_line_attr (cnt : nat) : eattr :=
-  if Nat.eqb (Nat.modulo cnt grid_thick_every) 0 then mkA [] [] (Some grid_thick_width) [] [] else a0.
-
-Fixpoint grid_loop (fuel : nat) (i unit : float) (cnt : nat) : option (list (geom * eattr)) :=
+(* ---------- Gridn's loop:  for i := 0.0; i <= 1000; i += unit ----------
+   one (hLine, vLine) pair per round; [true] marks the rounds with lineCnt%5 == 0 *)
+Fixpoint grid_loop (fuel : nat) (i unit : float) (cnt : nat) : option (list (geom * bool)) :=
   match fuel with
   | O => None   (* OutOfFuel: the loop did not end within the budget *)
   | S f =>
@@ -222,13 +220,17 @@ Fixpoint grid_loop (fuel : nat) (i unit : float) (cnt : nat) : option (list (geo
         | Some r =>
             let h := float_of_Z (c_evyHeight * c_scaleFactor) in
             let w := float_of_Z (c_evyWidth * c_scaleFactor) in
-            Some ((GLine i 0%float i h, grid_line_attr cnt) :: (GLine 0%float i w i, grid_line_attr cnt) :: r)
+            let thick := Nat.eqb (Nat.modulo cnt grid_thick_every) 0 in
+            Some ((GLine i 0%float i h, thick) :: (GLine 0%float i w i, thick) :: r)
         | None => None
         end
       else Some []
   end.
-Definition grid_lines (fuel : nat) (u : float) : option (list (geom * eattr)) :=
+Definition grid_lines (fuel : nat) (u : float) : option (list (geom * bool)) :=
   grid_loop fuel 0%float (tx u) O.
+(* `hLine.StrokeWidth = &thickWdith` *)
+Definition grid_line_attr (thick : bool) : eattr :=
+  if thick then mkA [] [] (Some grid_thick_width) [] [] else a0.
 
 (* ---------- the element each drawing call appends to rt.elements ---------- *)
 Definition clear_color (c : str) : str := if is_empty c then clear_default_color else c.
@@ -257,7 +259,7 @@ Definition draw_item (fx : bool) (fuel : nat) (kk : core) (c : cmd) : option (op
   | CText s => Some (Some (IShape (GText (cx kk) (cy kk) s) (text_attr fx (kpen kk)) t0))
   | CGridn u c =>
       match grid_lines fuel u with
-      | Some l => Some (Some (IGrid (mkA [] c None [] []) t0 l))
+      | Some l => Some (Some (IGrid (mkA [] c None [] []) t0 (map (fun gb => (fst gb, grid_line_attr (snd gb))) l)))
       | None => None
       end
   | _ => Some None
@@ -413,11 +415,11 @@ Definition spec_text_paint (fx : bool) (p : pen) : eattr :=
          else if is_empty (p_stroke p) then a_fill sp else p_stroke p)
         (a_stroke sp) (a_sw sp) (a_cap sp) (a_dash sp).
 
-Definition spec_grid_line (p : pen) (c : str) (ga : geom * eattr) : fshape :=
+Definition spec_grid_line (p : pen) (c : str) (gb : geom * bool) : fshape :=
   let sp := spec_paint p in
-  (fst ga,
+  (fst gb,
    mkA (a_fill sp) (if is_empty c then a_stroke sp else c)
-       (match a_sw (snd ga) with Some w => Some w | None => a_sw sp end) (a_cap sp) (a_dash sp),
+       (if snd gb then Some grid_thick_width else a_sw sp) (a_cap sp) (a_dash sp),
    None).
 
 Definition spec_shapes (fx : bool) (fuel : nat) (kk : core) (c : cmd) : option (list fshape) :=
